@@ -791,7 +791,15 @@ def correspondence(rng, tier):
         t = gen(ctx, depth, rng.choice(DIMS), ran, p_bad=0.03)
         term, desc, key = run_case(ctx, t, npts=2 if tier == 'quick' else 3)
         cs.add(term, desc, key)
-    return [cs]
+    cc = C.CaseSet('complex', ['Base.Vec', 'C04.Model', 'C04.Cplx', 'C04.Corr'], 'check_cplx', 'case QC')
+    for i in range(n // 3):
+        ctx = Ctx(rng, True)
+        depth = rng.randint(1, maxd)
+        ran = rng.choice(DIMS + ['F', 'F'])
+        t = gen(ctx, depth, rng.choice(DIMS), ran, p_bad=0.03)
+        term, desc, key = run_case(ctx, t, npts=2)
+        cc.add(term, desc, key)
+    return [cs, cc]
 
 
 # ------------------------------------------------------------------- probes
